@@ -72,6 +72,7 @@ type Tokenizer struct {
 	allowComments    bool
 	keyWord          map[string]bool
 	comfortEnabled   bool
+	inLiteral        bool // reading a string or a quoted identifier: no typographic aliases
 }
 
 type Matcher func(r rune) (func(r rune) bool, bool)
@@ -236,8 +237,10 @@ func (t *Tokenizer) run(tokens chan<- Token) {
 		case '"':
 			tokens <- t.readStr()
 		case '\'':
+			t.inLiteral = true
 			image := t.readSkip(func(c rune) bool { return c != '\'' }, false)
 			t.next(false)
+			t.inLiteral = false
 			tokens <- Token{tIdent, image, t.getLine()}
 		case '⁰':
 			tokens <- Token{tOperate, "^", t.getLine()}
@@ -397,17 +400,19 @@ func (t *Tokenizer) peek(skipComment bool) rune {
 		}
 	}
 
-	switch t.last {
-	case '•':
-		t.last = '*'
-	case '×':
-		t.last = '*'
-	case '÷':
-		t.last = '/'
-	case '–':
-		t.last = '-'
-	case 'ˆ':
-		t.last = '^'
+	if !t.inLiteral {
+		switch t.last {
+		case '•':
+			t.last = '*'
+		case '×':
+			t.last = '*'
+		case '÷':
+			t.last = '/'
+		case '–':
+			t.last = '-'
+		case 'ˆ':
+			t.last = '^'
+		}
 	}
 
 	t.isLast = true
@@ -450,6 +455,8 @@ func (t *Tokenizer) readSkip(valid func(c rune) bool, skipComment bool) string {
 }
 
 func (t *Tokenizer) readStr() Token {
+	t.inLiteral = true
+	defer func() { t.inLiteral = false }()
 	str := strings.Builder{}
 	for {
 		if c := t.next(false); c != '"' {
